@@ -129,7 +129,8 @@ impl<'a> WorkerState<'a> {
 			}
 			// "setup": the harness could not even build the scenario (a generator that asks for
 			// more than the harness provides) - a defect of the check, never a verdict about the code
-			Err(f) if f.oracle == "inconclusive" || f.oracle == "setup" => {
+			// (also: the process ran out of threads - the operating system's limit, not kira's doing)
+			Err(f) if f.oracle == "inconclusive" || f.oracle == "setup" || f.sig.contains("failed_to_spawn_thread") => {
 				// the harness could not establish the case's preconditions (e.g. a helper thread
 				// was not scheduled in time): not a verdict about the code
 				if self.res.inconclusive.len() < 5 {
